@@ -19,6 +19,7 @@ type runOpts struct {
 	corpus string
 	gobin  string // path to the gofasta CLI binary built from /repo
 	tmp    string
+	from   int
 }
 
 var opts runOpts
@@ -69,6 +70,7 @@ func commonFlags(fs *flag.FlagSet) {
 	fs.StringVar(&opts.corpus, "corpus", "", "")
 	fs.StringVar(&opts.gobin, "gobin", "", "")
 	fs.StringVar(&opts.tmp, "tmp", os.TempDir(), "")
+	fs.IntVar(&opts.from, "from", 0, "")
 }
 
 func main() {
@@ -108,12 +110,17 @@ func main() {
 				}
 			}
 			root := NewRNG(opts.seed)
-			for i := 0; i < opts.n; i++ {
+			for i := opts.from; i < opts.n; i++ {
 				id := fmt.Sprintf("%s-%d-%d", stream, opts.seed, i)
 				c := g(root.Fork(uint64(i)), id)
+				// a panic in a goroutine of the code under test kills this process: leave the case behind
+				c.SetInt("index", i)
+				os.WriteFile(opts.out+".pending", []byte(c.Line()+"\n"), 0644)
 				ex(NewRNG(idSeed(id)), c)
 				s.Emit(c)
+				s.w.Flush()
 			}
+			os.Remove(opts.out + ".pending")
 		} else {
 			fmt.Fprintln(os.Stderr, "unknown stream", stream)
 			os.Exit(2)
